@@ -101,6 +101,10 @@ pub fn spec(id: &str) -> Option<HistorySpec> {
             p.w.compact = 6;
             p.w.reopen = 5;
             p.w.wait_idle = 4;
+            // live snapshots make compactions keep older versions: the last stored entry of an output
+            // is then an older version of its last user key, which the recorded range must cover
+            p.w.snap = 4;
+            p.w.release = 1;
             Some(HistorySpec {
                 id: "C10",
                 oracles: Oracles { layout: true, ..Default::default() },
@@ -109,7 +113,7 @@ pub fn spec(id: &str) -> Option<HistorySpec> {
                 thorough_cases: 300_000,
                 thorough_max_ops: 300,
                 termination: false,
-            rule: "at every quiescent moment (after flush/compact_range/wait and after every reopen) the SSTables and NumFilesAtLevel descriptors must agree with the structural layout, no file number twice, smallest<=largest, levels>=1 ordered and pairwise disjoint, and each file's recorded bounds must equal its first and last stored entry (file opened through the table reader). Non-trivial = a level>=1 with >=2 files was observed, or a reopen wrote a new manifest while tables existed; distinct by case hash",
+            rule: "at every quiescent moment (after flush/compact_range/wait and after every reopen) the SSTables and NumFilesAtLevel descriptors must agree with the structural layout, no file number twice, smallest<=largest, levels>=1 ordered and pairwise disjoint, and each file's recorded bounds must equal its first and last stored entry (file opened through the table reader); up to 4 live snapshots make compactions retain older versions. Non-trivial = a level>=1 with >=2 files was observed, or a reopen wrote a new manifest while tables existed; distinct by case hash",
             })
         }
         "C11" => {
